@@ -4,7 +4,9 @@
    map e_act p = the actions taken; cost p = the sum of the costs.
    ord k = order in which the k-th expansion enumerates the transitions (any permutation),
    tbs k = tie-break value of the k-th push (any values: lifo, fifo, random draws),
-   h = heuristic cost (msdm's heuristic_value negated), consistent. *)
+   hz = a finite heuristic cost (msdm's heuristic_value negated), consistent; the loop sees it as
+   fun s => Some (hz s) (None would be +inf; infinite heuristic values are judged by the certificate
+   and the mirror comparison only). *)
 From Coq Require Import List ZArith Bool.
 From MSDM Require Import model.Search theory.SearchTheory theory.SearchInv theory.SearchBFS theory.SearchAStar.
 Local Open Scope Z_scope.
@@ -46,9 +48,9 @@ Proof. exact SearchBFS.bfs_complete_total. Qed.
 Print Assumptions bfs_complete.
 
 (* A-star loop: returned path is real, path_value is its total cost, and that cost is least *)
-Theorem astar_sound_optimal : forall g start ord h tbs path acts v vis,
-  wf_graph g -> (start < g_n g)%nat -> consistent g h -> ord_ok ord ->
-  astar g start ord h tbs = Found path acts v vis ->
+Theorem astar_sound_optimal : forall g start ord hz tbs path acts v vis,
+  wf_graph g -> (start < g_n g)%nat -> consistent g hz -> ord_ok ord ->
+  astar g start ord (fun s => Some (hz s)) tbs = Found path acts v vis ->
   exists p u, walk g start p u /\ g_goal g u = true /\ verts start p = path /\ map e_act p = acts /\
               cost p = v /\
               (forall p' u', walk g start p' u' -> g_goal g u' = true -> v <= cost p').
@@ -56,23 +58,18 @@ Proof. exact SearchAStar.astar_sound_optimal_found. Qed.
 Print Assumptions astar_sound_optimal.
 
 (* A-star loop: "no plan" exactly when no goal is reachable; fuel 2 + #transitions always suffices *)
-Theorem astar_complete : forall g start ord h tbs,
-  wf_graph g -> (start < g_n g)%nat -> consistent g h -> ord_ok ord ->
-  ((exists vis, astar g start ord h tbs = NoPlan vis) <->
+Theorem astar_complete : forall g start ord hz tbs,
+  wf_graph g -> (start < g_n g)%nat -> consistent g hz -> ord_ok ord ->
+  ((exists vis, astar g start ord (fun s => Some (hz s)) tbs = NoPlan vis) <->
    (forall p u, walk g start p u -> g_goal g u = false)) /\
-  astar g start ord h tbs <> OutOfFuel /\ astar g start ord h tbs <> Broken.
+  astar g start ord (fun s => Some (hz s)) tbs <> OutOfFuel /\ astar g start ord (fun s => Some (hz s)) tbs <> Broken.
 Proof. exact SearchAStar.astar_complete_total. Qed.
 Print Assumptions astar_complete.
 
-(* from_mdp reads the single outcome of every representation except the dict-keys one ... *)
-Theorem from_mdp_repr_partial : forall d,
-  (forall x, d <> DDict x) -> from_mdp_read d = Some (dist_outcome d).
-Proof. exact SearchTheory.from_mdp_repr_partial. Qed.
-Print Assumptions from_mdp_repr_partial.
-
-(* ... the full clause "however the distributions are represented" fails on the model of today's code *)
-Theorem from_mdp_repr_refuted : exists d, from_mdp_read d <> Some (dist_outcome d).
-Proof. exact SearchTheory.from_mdp_repr_refuted. Qed.
-Print Assumptions from_mdp_repr_refuted.
+(* from_mdp accepts a deterministic MDP however its single-outcome distributions are represented
+   (tuple, list or dict-keys support: read by iteration) *)
+Theorem from_mdp_repr : forall d, from_mdp_read d = Some (dist_outcome d).
+Proof. exact SearchTheory.from_mdp_repr. Qed.
+Print Assumptions from_mdp_repr.
 
 (* non-vacuity witnesses: SearchTheory.ex_wf / ex_bf / ex_cert, SearchBFS.bfs_example, SearchAStar.astar_example *)
